@@ -32,6 +32,8 @@ pub enum SEv {
     UlaOther(usize),
     UnakSingle(usize),
     UnakDup(usize),
+    /// NAK for the sequence number the client retransmitted last
+    UnakRtx(usize),
     Uka(usize),
     Ureg3(usize),
     Uerr(usize),
@@ -49,6 +51,8 @@ pub struct Oracles {
     pub c03: bool,
     pub c04: bool,
     pub c10: bool,
+    /// NAK attribution: while the harness's own record of who carried the unique copy is fresh, nobody else is charged
+    pub c05: bool,
 }
 
 #[derive(Clone, Debug)]
@@ -80,6 +84,10 @@ pub struct SS {
     pub last_nak: Option<u32>,
     /// number of the last SRTLA ACK injected
     pub last_sla: Option<u32>,
+    /// the harness's own tracker: sequence number -> (conn_id of the link that got the unique copy last, when)
+    pub carried_by: std::collections::BTreeMap<u32, (u64, u64)>,
+    /// sequence number of the last client retransmission
+    pub last_rtx: Option<u32>,
     /// classic reference model (C10): windows per link
     pub ref_windows: Vec<i32>,
     pub data_routed: u64,
@@ -105,6 +113,8 @@ pub enum InitKind {
     Latched { link: usize },
     /// every link stall-latched: no healthy alternative, so none is gated
     AllLatched,
+    /// link i gated by the fast silence pull only (loaded, proof fresh, not heard from for a moment): not latched
+    Pulled { link: usize },
     /// S5: link i timed out, waiting for its reconnect back-off
     TimedOut { link: usize, classic: bool },
     /// S6: link i after REG_ERR
@@ -163,6 +173,8 @@ impl StreamModel {
             last_keepalive,
             last_nak: None,
             last_sla: None,
+            carried_by: Default::default(),
+            last_rtx: None,
             ref_windows,
             data_routed: 0,
             probes_sent: 0,
@@ -265,6 +277,42 @@ impl StreamModel {
                 self.script(env, &mut s, SEv::Cdata);
                 self.script(env, &mut s, SEv::Tflush);
                 assert!(s.w.connections[link].stall_latched(), "scripted prefix: link {link} not latched");
+                assert!(s.w.connections[link].is_stall_gated(), "scripted prefix: link {link} not gated");
+                s
+            }
+            InitKind::Pulled { link } => {
+                let mut s = self.fresh(env, false);
+                self.stream(env, &mut s, 40, true);
+                s.w.config.set_conn_timeout_ms(60_000);
+                for k in 0..40u32 {
+                    let seq = s.next_seq;
+                    s.next_seq += 1;
+                    let p = srt_data(seq, false, 0x00f1_0000 + k, 64);
+                    s.ledger.push(Entry { bytes: Arc::new(p.clone()), seq: Some(seq) });
+                    let id = s.ledger.len() - 1;
+                    s.w.connections[link].queue_data_packet(&p, Some(seq), s.w.now);
+                    Arc::make_mut(&mut s.w.seq_tracker).insert(seq, s.w.connections[link].conn_id, s.w.now);
+                    s.mon[link].pending.push_back(id);
+                    if k % 16 == 15 {
+                        self.script(env, &mut s, SEv::Tflush);
+                    }
+                }
+                self.script(env, &mut s, SEv::Tflush);
+                // delivery proof on `link` (an earned SRTLA ACK), then everybody else is heard from for a while, `link` is not
+                self.script(env, &mut s, SEv::UlaOwn(link));
+                for _ in 0..3 {
+                    self.script(env, &mut s, SEv::Adv(150));
+                    for l in 0..self.n {
+                        if l != link {
+                            let pkt = [0x80u8, 0x06, 0, 0, 0, 0, 0, 0, 0, 0, 0, 0, 0, 0, 0, 0];
+                            let _ = self.uplink(env, &mut s, l, &pkt);
+                        }
+                    }
+                }
+                self.script(env, &mut s, SEv::Cdata);
+                let p = s.w.connections[link].verif_private();
+                assert!(p.silence_pulled, "scripted prefix: link {link} not silence-pulled");
+                assert!(!s.w.connections[link].stall_latched(), "scripted prefix: link {link} latched, meant to be pulled only");
                 assert!(s.w.connections[link].is_stall_gated(), "scripted prefix: link {link} not gated");
                 s
             }
@@ -411,6 +459,11 @@ impl StreamModel {
         }
         let _ = (&pre_q, &wire_n);
         let unique = s.w.last_selected_idx.filter(|l| got.contains(l));
+        if let (Some(q), Some(u)) = (seq, unique) {
+            let id_u = s.w.connections[u].conn_id;
+            let now_u = s.w.now;
+            s.carried_by.insert(q, (id_u, now_u));
+        }
         let ctx = |what: &str| {
             format!(
                 "{what}: client datagram #{id} ({} bytes, seq {seq:?}, established {established}), copies queued on links {got:?}, unique copy on {unique:?}; usable {usable:?}; mode {:?}",
@@ -615,6 +668,26 @@ impl StreamModel {
         if self.or.c10 && snap.mode.is_classic() {
             self.c10_windows(s, l, bytes, &pre_w, &pre_log, &pre_nak)?;
         }
+        if self.or.c05 && pkt_type(bytes) == Some(0x8003) && bytes.len() == 8 {
+            let q = u32::from_be_bytes([bytes[4], bytes[5], bytes[6], bytes[7]]);
+            let charged: Vec<usize> = (0..s.w.connections.len().min(pre_nak.len())).filter(|j| s.w.connections[*j].congestion.nak_count > pre_nak[*j]).collect();
+            if charged.len() > 1 {
+                return Err(Fail::new("nak-charged-to-more-than-one-link", format!("NAK {q}: links {charged:?} were charged")));
+            }
+            if let Some((owner, at)) = s.carried_by.get(&q).copied() {
+                if s.w.now.saturating_sub(at) <= 5000 {
+                    if let Some(c) = charged.first() {
+                        if s.w.connections[*c].conn_id != owner {
+                            let who = s.w.connections.iter().position(|c| c.conn_id == owner);
+                            return Err(Fail::new(
+                                "nak-charged-to-other-link-while-the-carrier-is-remembered",
+                                format!("NAK {q}: the unique copy was last routed to link {who:?} {} ms ago, yet link {c} was charged", s.w.now - at),
+                            ));
+                        }
+                    }
+                }
+            }
+        }
         // REG3 re-registers the link (its queue is cleared); a teardown clears it too
         let ty = pkt_type(bytes);
         let reset: Vec<bool> = (0..self.n)
@@ -696,6 +769,7 @@ impl StreamModel {
                 s.w.advance(1);
                 // retransmission of an earlier sequence number, R flag set
                 let seq = s.next_seq.saturating_sub(5).max(1);
+                s.last_rtx = Some(seq);
                 let p = srt_data(seq, true, s.ledger.len() as u32, 188);
                 self.client(env, s, p, Some(seq))
             }
@@ -809,6 +883,14 @@ impl StreamModel {
                 s.last_nak = Some(q as u32);
                 let mut p = vec![0x80u8, 0x03, 0, 0];
                 p.extend_from_slice(&(q as u32).to_be_bytes());
+                self.uplink(env, s, l, &p)
+            }
+            SEv::UnakRtx(l) => {
+                s.w.advance(1);
+                let Some(q) = s.last_rtx else { return Ok(()) };
+                s.last_nak = Some(q);
+                let mut p = vec![0x80u8, 0x03, 0, 0];
+                p.extend_from_slice(&q.to_be_bytes());
                 self.uplink(env, s, l, &p)
             }
             SEv::UnakDup(l) => {
